@@ -37,7 +37,7 @@ def S(scen, cores, steps, **kw):
 
 QUERIES = [
     {"name": "pool", "fn": pool,
-     "shards": {"quick": _sp([S("chain", 1, 3), S("one-tl", 1, 3), S("fork", 2, 3), S("one", 1, 2, faults=True), S("chain", 1, 2, faults=True), S("late", 2, 3)]),
+     "shards": {"quick": _sp([S("chain", 1, 3), S("one-tl", 1, 3), S("fork", 2, 3), S("one", 1, 2, faults=True), S("chain", 1, 2, faults=True), S("late", 2, 3), S("join", 2, 2)]),
                 "thorough": _sp([S(s, c, 4) for s in ("chain", "one-tl", "fork", "late", "join", "indep-tl") for c in (1, 2)] + [S("chain", 1, 3, faults=True), S("fork", 2, 3, faults=True), S("one-tl", 1, 4, races=True), S("chain", 1, 3, races=True)])},
      "timeout": {"quick": 900, "thorough": 3000},
      "bound": "scenarios as C11 plus single tasks with and without time limit; start failure (missing working directory) and log-write failure per task as symbolic bit masks; event script of 2-3 (quick) / 3-4 (thorough) events + drain; "
